@@ -247,6 +247,7 @@ func (c *Call) RequestStart() time.Time { return c.requestStart }
 
 // Exchange is one HTTP request/response pair.
 type Exchange struct {
+	uploadStopped  bool // HTTP/2, status above 299: the transport has stopped uploading the request body
 	pumpInRead     bool
 	CtxNoticedLate bool // the context finished while nobody was watching it; it was noticed when the request-body read returned
 	PumpErrLive    bool // the request body failed (not EOF) while the response was still open: stream reset
@@ -499,6 +500,12 @@ func (e *Exchange) runPump() {
 	tmp := make([]byte, 32<<10)
 	var busyUntil time.Time
 	for {
+		if e.uploadStopped {
+			// nothing more is uploaded; the request body is closed when the
+			// response body is closed or has ended (abortLocked / Close do that)
+			e.Call.S.Gate(e.Call.ID+"/up.stalled", &resumedPred{e})
+			return
+		}
 		var pred core.Pred = e.Up.SpacePred()
 		if !busyUntil.IsZero() {
 			pred = &lagPred{inner: pred, until: busyUntil}
